@@ -8,7 +8,7 @@ RULE = ('all parser input streams of C01 with and without a return_parse_end arg
         'recogniser), failure => end == error position < max(n,1), success => error pointer NULL; non-trivial = distinct input of at least 2 bytes')
 ASSUMPTIONS = ['C locale', 'hand-written transliteration validated by this differential run']
 
-def corpus(ctx): return load_corpus(ctx['verif'], 'C10')
+def corpus(ctx): return G.parse_corpus(ctx, 'C10', None)
 def generate(ctx):
     import random
     cases = G.all_streams(ctx, 10)
